@@ -134,7 +134,10 @@ func c09Mutate(r *mrand.Rand, seeds [][]byte) ([]byte, string) {
 				continue
 			}
 			l := locs[r.Intn(len(locs))]
-			repl := gen.Pick(r, []string{"", "\"", "x", "\"\"", "\"unbalanced", "unbalanced\"", "\"a\"b\"", strings.Repeat("A", 3000), "a;b=c", "=?utf-8?q?x?=", "\"\r\n x\"", " ", "\"x\" ; filename=", "''", "*0*=utf-8''x", "\x00"})
+			repl := gen.Pick(r, []string{"", "\"", "x", "\"\"", "\"unbalanced", "unbalanced\"", "\"a\"b\"", strings.Repeat("A", 3000), "a;b=c", "=?utf-8?q?x?=", "\"\r\n x\"", " ", "\"x\" ; filename=", "''", "*0*=utf-8''x", "\x00",
+				// encoded-words naming charsets a decoder may know, half know or not know at all
+				"\"=?UTF-7?Q?report.txt?=\"", "\"=?ISO-2022-KR?B?eA==?=\"", "=?IBM037?Q?x?=", "\"=?windows-1252?Q?x=E9?=\"", "\"=?x-unknown?Q?x?=\"", "\"=??Q?x?=\"", "\"=?utf-8?X?x?=\"",
+				"\"=?utf-8*en?q?x?=\"", "\"=?ISO-8859-15?Q?=A4?=\"", "\"=?GB2312?B?xOO6ww==?=\"", "\"=?utf-16?B?AGEAYg==?=\"", "\"=?hz-gb-2312?Q?x?=\"", "\"=?UTF-8?Q?a?= =?UTF-7?Q?b?=\""})
 			b = append(append(append([]byte{}, b[:l[4]]...), repl...), b[l[5]:]...)
 			ops = append(ops, "param-value")
 		case 1: // drop the '=' of a parameter or the name
@@ -317,7 +320,7 @@ func c09Mutate(r *mrand.Rand, seeds [][]byte) ([]byte, string) {
 				continue
 			}
 			l := locs[r.Intn(len(locs))]
-			v := gen.Pick(r, []string{"", " <", " \"unterminated", " a@b, , c@", " =?utf-8?q?=ZZ?= <a@b>", " (((", " Inv, 99 Nov 9999 99:99:00 +0000", strings.Repeat(" a@b.c,", 500), " \xff\xfe", " <>", " @", " a b c"})
+			v := gen.Pick(r, []string{"", " <", " \"unterminated", " a@b, , c@", " =?utf-8?q?=ZZ?= <a@b>", " (((", " Inv, 99 Nov 9999 99:99:00 +0000", strings.Repeat(" a@b.c,", 500), " \xff\xfe", " <>", " @", " a b c", " =?UTF-7?Q?x?= <a@b.example>", " =?ISO-2022-KR?B?eA==?=", " =?x-none?Q?x?= <a@b.example>", " =?IBM037?Q?x?="})
 			if r.Intn(2) == 0 {
 				// syntactically valid but unusual RFC 5322 address syntax: groups (also empty ones), several mailboxes,
 				// comments, routes, domain literals, quoted pairs, empty phrases
